@@ -214,7 +214,19 @@ func c12Scenario(c *Ctx, idx int, r *Rng) (mline, mimpl, mcase string) {
 			branches = append(branches, side)
 			log("merge %s", side)
 		case 7:
-			if r.Bool() {
+			if ans := strings.Fields(w.must("tag", "-l", "an*")); len(ans) > 0 && r.Chance(35) {
+				// a NESTED annotated tag: a tag object whose target is another tag object — whose own ref may have
+				// been deleted since (a signed-off release tag on top of a build tag)
+				inner := Pick(r, ans)
+				w.gitEnv([]string{"GIT_COMMITTER_DATE=2023-06-01T00:00:00Z"}, "-c", "advice.nestedTag=false", "tag", "-a", "-m", fmt.Sprintf("outer %d", op), fmt.Sprintf("an%dn", op), inner)
+				log("tag -a an%dn on tag %s", op, inner)
+				c.R.Count("refs.nested-tag")
+				if r.Chance(50) {
+					w.git("tag", "-d", inner)
+					log("tag -d %s", inner)
+					c.R.Count("refs.nested-tag.inner-ref-deleted")
+				}
+			} else if r.Bool() {
 				w.git("tag", fmt.Sprintf("lw%d", op))
 				log("tag lw%d", op)
 			} else {
@@ -223,6 +235,18 @@ func c12Scenario(c *Ctx, idx int, r *Rng) (mline, mimpl, mcase string) {
 			}
 		case 8:
 			w.git("checkout", "-q", Pick(r, branches))
+		}
+	}
+	if r.Chance(18) {
+		// directed: a nested annotated tag whose inner tag has no ref of its own any more
+		w.gitEnv([]string{"GIT_COMMITTER_DATE=2023-05-02T00:00:00Z"}, "tag", "-a", "-m", "build tag", "anbuild")
+		w.gitEnv([]string{"GIT_COMMITTER_DATE=2023-06-02T00:00:00Z"}, "-c", "advice.nestedTag=false", "tag", "-a", "-m", "release tag", "anrelease", "anbuild")
+		log("tag -a anbuild ; tag -a anrelease on tag anbuild")
+		c.R.Count("refs.nested-tag")
+		if r.Chance(65) {
+			w.git("tag", "-d", "anbuild")
+			log("tag -d anbuild")
+			c.R.Count("refs.nested-tag.inner-ref-deleted")
 		}
 	}
 	w.git("checkout", "-q", "master")
@@ -239,6 +263,14 @@ func c12Scenario(c *Ctx, idx int, r *Rng) (mline, mimpl, mcase string) {
 	// ---- before
 	oldH, oldOrder := c12ReadHistory(w)
 	oldRefs := w.must("for-each-ref", "--format=%(refname) %(objecttype) %(objectname) %(*objectname)")
+	oldCommitOf := map[string]string{} // ref -> the commit it leads to, through any number of tag objects
+	for _, l := range strings.Split(oldRefs, "\n") {
+		if f := strings.Fields(l); len(f) >= 3 {
+			if cm, code := w.git("rev-parse", "-q", "--verify", f[0]+"^{commit}"); code == 0 {
+				oldCommitOf[f[0]] = strings.TrimSpace(cm)
+			}
+		}
+	}
 	blobCache := map[string][]byte{}
 	sel := c12Selections(r)
 	noRewrite := r.Chance(12)
@@ -521,6 +553,9 @@ func c12Scenario(c *Ctx, idx int, r *Rng) (mline, mimpl, mcase string) {
 		target := f[2]
 		if f[1] == "tag" && len(f) == 4 {
 			target = f[3]
+		}
+		if cm, ok := oldCommitOf[f[0]]; ok {
+			target = cm
 		}
 		now, code := w.git("rev-parse", "-q", "--verify", f[0]+"^{commit}")
 		if code != 0 || strings.TrimSpace(now) != image(target) {
